@@ -8,7 +8,7 @@ ROOT = os.path.dirname(os.path.dirname(os.path.abspath(__file__)))
 E1 = 'vf/engine/explore.py'
 CHECKS = {}
 NOT_YET = {}
-HOLD = {'C02', 'C04', 'C05', 'C11'}  # built but not yet passing on the unchanged tree / not yet validated: not claimed
+HOLD = {'C02', 'C04', 'C05', 'C11', 'C12', 'C13', 'C20'}  # built but not yet passing on the unchanged tree / not yet validated: not claimed
 
 
 def check(pid, category, text, note, technique, engine, design_ref):
@@ -187,6 +187,58 @@ check(
     'exhaustive lattice and basis enumeration against an exact-arithmetic reference',
     'E2',
     'DESIGN.md section 2 C11',
+)
+
+
+check(
+    'C12',
+    'exploration',
+    'Every importable Problem subclass (59; 58 with a constructor recipe covering every solver / boundary / stencil variant it offers) is put through the complete lattice states x right-hand sides x times x factors {0, 1e-6, 1e-3, 0.1, 1, 1e2}: solver residual against the '
+    'class\'s own eval_f within a tolerance derived from the configured solver tolerance, factor = 0, arguments bitwise unchanged, split siblings summing to the unsplit right-hand side, closed-form solutions against initial condition and a Richardson time derivative.',
+    'Trusted: the recipe table (vf/env/c12_recipes.py). For Newton-based classes the state lattice is an alphabet, not a proof over all states; 19 modules need optional libraries and are not importable here.',
+    'exhaustive lattice enumeration per problem class against the solver contract',
+    'E2',
+    'DESIGN.md section 2 C12',
+)
+check(
+    'C13',
+    'exploration',
+    'Every operation sequence up to depth 3 (thorough 4) over the operation alphabet x initial aliasing patterns for every data type x shape x dtype is compared with a value-semantics interpreter with explicit buffers; abs() against the max-norm axioms on a value alphabet; '
+    'run level: for a lattice of sweeper x controller combinations the caller\'s u0 and every logged / returned solution stay bitwise unchanged.',
+    'Trusted: the reference interpreter in vf/oracle/valuesem.py.',
+    'breadth-first exhaustive enumeration of operation sequences against a reference model',
+    'E2',
+    'DESIGN.md section 2 C13',
+)
+check(
+    'C15',
+    'exploration',
+    'Complete lattice n_steps 1..16 x alpha over ten decades and 1: weighted transforms inverse to each other and diagonalising the alpha-circulant matrix with the closed-form factors, factors recovered from get_G_inv_matrix for M 1..5; QDiagonalization sweepers and one it_ParaDiag iteration probed on a basis against '
+    'dense solves; converged ParaDiag runs against sequential collocation stepping.',
+    'Trusted: vf/oracle/paradiag.py (mpmath closed forms, exact rational Q, dense numpy solves). Linear problems only, as the property says.',
+    'exhaustive lattice and basis enumeration against an independent closed-form / dense reference',
+    'E2',
+    'DESIGN.md section 2 C15',
+)
+check(
+    'C16',
+    'fault_enumeration',
+    'Every operation history up to length 2 on the full dtype x nVar x grid lattice (up to 5-6 on selected configurations) is replayed with bit-exact comparison through all readers and in a fresh process; for every append and for header creation every byte prefix is recovered, checked, appended to and read again; '
+    'the block decomposition is checked for exact cover on the complete nProcs x grid lattice; LogToFile resume into files torn at every byte.',
+    'Trusted: vf/oracle/fieldfile.py (list-of-records model). One crash per history; the MPI-IO branch is not simulated.',
+    'exhaustive crash-point enumeration over recorded write histories with recovery and continuation',
+    'E4',
+    'DESIGN.md section 2 C16',
+)
+check(
+    'C20',
+    'exploration',
+    'Every description of the grammar with list/scalar shapes within the stated ball is built and its hierarchy compared with the distribution rule; every member of the single-fault table applied to each valid base must be rejected at construction or first run; every subset of a pool of user-addable convergence controllers '
+    'is instantiated once, ordered by control_order, with user parameters overriding defaults.',
+    'Trusted: the fault table only demands rejection of what the property statement lists and where the faulty entry is consulted.',
+    'exhaustive enumeration over a description grammar and a single-fault table',
+    'E2',
+    'DESIGN.md section 2 C20',
 )
 
 
